@@ -40,6 +40,52 @@ def _rewrites_by(facts, body, closure_path, c_expr):
     return False
 
 
+def _helper_rewrites_by(facts, body, bb, t, c_expr, depth=0):
+    """the call at bb goes to a local function that divides every tag position by one of its parameters, and the actual
+    argument for that parameter is c"""
+    if depth > 2:
+        return False
+    for q in Body.callee_qs(t):
+        for hb in facts.by_q.get(q, []):
+            if hb.kind == "closure":
+                continue
+            for sb, st in hb.calls_to(SET_POS):
+                e = peel(hb.operand_expr(st["args"][1]), through_try=False)
+                if not (e.k == "bin" and e.op == "Div"):
+                    continue
+                a = peel(e.a, through_try=False)
+                d = peel(e.b, through_try=False)
+                if a.k == "call" and a.q == "stream::Tag::pos" and d.k == "param" and 1 <= d.idx <= len(t["args"]):
+                    actual = body.operand_expr(t["args"][d.idx - 1])
+                    if same_expr(actual, c_expr):
+                        return True
+            # the helper may itself use for_each/map with a closure capturing its parameter
+            for fb, ft in hb.calls():
+                if ft["f"].get("name") in ("for_each", "map", "retain_mut"):
+                    for x in walk(hb.operand_expr(ft["args"][-1])):
+                        if x.k == "agg" and x.ak == "closure":
+                            cb = facts.by_path.get(x.q)
+                            if cb is None:
+                                continue
+                            for sb, st in cb.calls_to(SET_POS):
+                                e = peel(cb.operand_expr(st["args"][1]), through_try=False)
+                                if e.k == "bin" and e.op == "Div":
+                                    d = peel(e.b, through_try=False)
+                                    if d.k == "field" and d.owner and d.owner.startswith("closure:"):
+                                        for blk in hb.blocks:
+                                            for s2 in blk["stmts"]:
+                                                if s2["k"] == "assign" and s2["rv"]["k"] == "agg" and s2["rv"].get("closure") == x.q:
+                                                    ops = s2["rv"]["ops"]
+                                                    if d.idx < len(ops):
+                                                        cap = peel(hb.operand_expr(ops[d.idx]), through_try=False)
+                                                        while cap is not None and cap.k in ("ref", "deref"):
+                                                            cap = cap.a
+                                                        if cap is not None and cap.k == "param" and 1 <= cap.idx <= len(t["args"]) and \
+                                                                same_expr(body.operand_expr(t["args"][cap.idx - 1]), c_expr):
+                                                            return True
+    return False
+
+
 def rule_r3(facts, col):
     """rate changers re-base forwarded tag positions: where a hand-written work() commits produce(a / c, tags) for
     consume(a) with a non-empty tag list, the list has had every position divided by c (or c == 1 on that path)"""
@@ -59,31 +105,89 @@ def rule_r3(facts, col):
                     continue   # no tags forwarded
                 key = "%s:produce(a/c, tags)" % body.q
                 c = b.b
-                # c == 1 on this path?
-                one = False
-                for f in facts_at(body, pb):
+                # every path to this commit passes an edge establishing c == 1, or a call that divides the positions of the
+                # list by c (a for_each/map closure, or a local helper taking the list and c)
+                one_edges = set()
+                for edge, f in edge_facts(body):
                     if f[0] == "Eq" and ((same_expr(f[1], c) and c08._is_const(f[2], 1)) or (same_expr(f[2], c) and c08._is_const(f[1], 1))):
-                        one = True
+                        one_edges.add(edge)
                     if f[0] == "IntEq" and f[2] == 1 and same_expr(f[1], c):
-                        one = True
-                if one:
-                    col.ok("C12.R3", key + "@c==1", body.where(pb), "ratio is 1 on this path: positions unchanged")
-                    continue
-                # a dominating for_each/map over the same list whose closure divides positions by c
-                ok = False
+                        one_edges.add(edge)
+                rewrites = set()
                 for fb, ft in body.calls():
-                    nm = ft["f"].get("name")
-                    if nm not in ("for_each", "map", "retain_mut") or not body.dominates(fb, pb):
+                    if fb == pb:
                         continue
-                    for x in walk(body.operand_expr(ft["args"][-1])):
-                        if x.k == "agg" and x.ak == "closure" and _rewrites_by(facts, body, x.q, c):
-                            ok = True
-                if ok:
-                    col.ok("C12.R3", key, body.where(pb), "forwarded tags re-based by pos / c before the commit")
+                    nm = ft["f"].get("name")
+                    if nm in ("for_each", "map", "retain_mut"):
+                        for x in walk(body.operand_expr(ft["args"][-1])):
+                            if x.k == "agg" and x.ak == "closure" and _rewrites_by(facts, body, x.q, c):
+                                rewrites.add(fb)
+                    elif _helper_rewrites_by(facts, body, fb, ft, c):
+                        rewrites.add(fb)
+                r = body.reachable(0, avoid=rewrites, edge_filter=lambda a_, b_: (a_, b_) not in one_edges)
+                if pb not in r or 0 in rewrites:
+                    how = []
+                    if one_edges:
+                        how.append("ratio is 1")
+                    if rewrites:
+                        how.append("positions divided by c")
+                    col.ok("C12.R3", key + ("@c==1" if not rewrites else ""), body.where(pb),
+                           "on every path to the commit: " + " or ".join(how))
                 else:
                     col.bad("C12.R3", key, body.where(pb),
-                            "work() forwards its input tag list to produce(a / c, ..) without dividing the tag positions by the same "
-                            "ratio c: tags land c times too far into the output (or are dropped as beyond the commit)", {})
+                            "work() forwards its input tag list to produce(a / c, ..) on a path where the tag positions were not divided by "
+                            "the same ratio c (and c == 1 is not established): tags land c times too far into the output (or are dropped "
+                            "as beyond the commit)", {})
+
+
+READ_BUF_Q = "stream::ReadStream::read_buf"
+
+
+def _read_buf_calls_in(e):
+    return [(x.bb, x) for x in walk(e) if x.k == "call" and x.q == READ_BUF_Q and getattr(x, "bb", None) is not None]
+
+
+def rule_r4(facts, col):
+    """forwarded tags belong to the window that is copied and consumed: the tag list handed to produce() comes from the
+    read_buf() call whose window is consumed with it, and nothing is consumed from that stream between that read_buf() and
+    the produce() (tag positions are relative to the window they were read with)"""
+    from ..mir import self_field_path
+    for body in facts.impl_bodies(BLOCK_TRAIT, "work"):
+        if body.from_derive:
+            continue
+        cons = []
+        for cb, ct in body.calls_to(effects.CONSUME):
+            rb = _read_buf_calls_in(body.operand_expr(ct["args"][0]))
+            if rb:
+                fp = self_field_path(rb[0][1].args[0]) if rb[0][1].args else None
+                cons.append((cb, rb[0][0], tuple(fp or ())))
+        for pb, pt in body.calls_to(effects.PRODUCE):
+            te = body.operand_expr(pt["args"][2])
+            rbs = _read_buf_calls_in(te)
+            if not rbs:
+                continue    # no input tags forwarded (empty list or tags made here)
+            rbb, rcall = rbs[0]
+            fp = tuple(self_field_path(rcall.args[0]) or ()) if rcall.args else ()
+            key = "%s:produce(.., tags of self.%s)" % (body.q, ".".join(fp))
+            probs = []
+            # every consume on that stream that is ordered with this produce (before or after it) and lies downstream of the
+            # read_buf() that supplied the tags must consume THAT call's window: a second read_buf() in between means the
+            # samples copied/consumed and the tag positions refer to different windows
+            fwd = body.reachable(rbb)
+            for cb, crb, cfp in cons:
+                if cfp != fp or cb not in fwd:
+                    continue
+                if not (pb in body.reachable(cb) or cb in body.reachable(pb)):
+                    continue
+                if crb != rbb and rbb not in body.reachable(crb, avoid={pb}) :
+                    probs.append("the tag list comes from the read_buf() at %s but the window consumed with this commit (%s) comes from "
+                                 "another read_buf() call at %s: tag positions are relative to the window they were read with, so tags "
+                                 "land on the wrong samples (or are lost) whenever the two windows differ" % (
+                                     body.where(rbb), body.where(cb), body.where(crb)))
+            if probs:
+                col.bad("C12.R4", key, body.where(pb), "; ".join(sorted(set(probs))), {})
+            else:
+                col.ok("C12.R4", key, body.where(pb), "tags and consumed window come from the same read_buf() call, nothing consumed in between")
 
 
 def run(ctx):
@@ -94,7 +198,9 @@ def run(ctx):
     c19.rule_work(fam, ctx, only={"C12.R2"})
     c19.rule_work(facts, ctx, only={"C12.R2"})
     rule_r3(facts, ctx)
-    ctx.floor("C12.R3", 2, "FirFilter: deci == 1 path and decimating path")
+    rule_r4(facts, ctx)
+    ctx.floor("C12.R4", 4, "hand-written tag forwarders: Skip, Delay, FirFilter, Hilbert (+ others found)")
+    ctx.floor("C12.R3", 1, "FirFilter commit(s) with forwarded tags (2 sites today; 1 when the two paths share the commit)")
     ctx.floor("C12.R1", 1, "tag insertion in the commit body")
     ctx.floor("C12.R2", 54 * 3, "3 tag-path obligations x (36 family + 18 in-crate sync blocks)")
     ctx.explain("C12 (partial): (R1) the stream stores only tags with pos < n, so every pass-through block that hands its read-window "
